@@ -33,11 +33,16 @@ FOREIGN = [
     b"50%\r100%\r", b"a\rb\r\x1b[K", b"x\r\r", b"\x1b[32mok\r\x1b[m done\r\x1b[m",
     # far longer than any panel, far shorter than --max-line-length
     b"lorem ipsum " * 40,
+    # words that open a part of a binary patch - only inside one; JSON that is not a record of rg
+    b"delta now reads its input line by line", b"literal translation", b"literal 12", b'{"type":"end","job":17,"status":"ok"}',
+    b'{"type":"summary","n":3}',
 ]
 
 CALLERS = [None, ["git", "log", "-p"], ["git", "show"], ["git", "diff"],
            # revisions that contain a colon but name no file (`REV:path` would make the whole input a file's content)
-           ["git", "show", "--oneline", ":/fix typo"], ["git", "show", "-s", "HEAD@{2024-01-01 10:00:00}"]]
+           ["git", "show", "--oneline", ":/fix typo"], ["git", "show", "-s", "HEAD@{2024-01-01 10:00:00}"],
+           # ... and path arguments after `--` with a colon (pathspec magic)
+           ["git", "show", "--oneline", "HEAD", "--", ".", ":!package-lock.json"]]
 # callers that enable blame / grep parsing: only lines outside the documented shapes
 SAFE_FOR_GREP_BLAME = [b"", b"On branch main", b"- item",
                        b"{not json", b"\x1b[31mred\x1b[m text", b"caf\xc3\xa9 \xe6\xbc\xa2",
@@ -155,8 +160,17 @@ class Foreign(Problem):
                 return [(lines[count], (2, count + 1, idx), "section")]
             # after a file section: the next commit line - or foreign text directly (`git log --oneline -p`,
             # `git log --format=… -p`, `(git diff; some-command) | delta`)
+            # ... or the empty line that `git log` writes between the last file of a commit and what follows
+            info = producers.section(kind, 0, body)[1]
             return [(producers.COMMIT_BLOCK[0].replace(b"1", b"3"), (4, 0, 0), "commit")] + \
-                [(l, (5, 1, 0), "foreign") for l in self.after_section]
+                [(l, (5, 1, 0), "foreign") for l in self.after_section] + \
+                [(b"", (6, 0, idx), "blank" if not info["has_hunk"] else "blank-after-hunk")]
+        if phase == 6:
+            # (after the separator line; a second one, then text)
+            out = [(l, (5, 1, 0), "foreign-after-blank") for l in self.after_section]
+            if count == 0:
+                out.append((b"", (6, 1, idx), "blank"))
+            return out
         if phase == 4:
             return self._foreign(4, count) if count < min(self.k, 2) else []
         if phase == 5:
@@ -166,6 +180,12 @@ class Foreign(Problem):
     def step(self, model, line, kind, out, ps):
         if kind == "foreign":
             check_passthrough(line, out, self.ocfg.get("maxlen", 3000), after_section=(ps[0] == 5 and ps[1] == 1))
+        elif kind == "foreign-after-blank":
+            check_passthrough(line, out, self.ocfg.get("maxlen", 3000))
+        elif kind == "blank":
+            # (after a file without hunks an empty line is no hunk line; directly after a hunk it may be one - an
+            # unchanged empty line written without its blank - and is not judged)
+            check_passthrough(line, out, self.ocfg.get("maxlen", 3000), after_section=True)
         return ()
 
     def model_key(self, model):
@@ -195,7 +215,7 @@ DIMS = [
 ]
 
 SECTION_KINDS = [("modified", "ctx"), ("modified", "minusplus"), ("mode", "ctx"), ("binary", "ctx"),
-                 ("rename", "ctx"), ("added", "nonl")]
+                 ("rename", "ctx"), ("added", "nonl"), ("combined", "ctx"), ("combined", "minusplus")]
 
 
 def run_task(task):
